@@ -14,6 +14,7 @@ import ast
 from ..core import AnalysisError
 from ..cfg import CFG
 from ..flow import Defs, deps
+from ..tensym import ShapeError
 from ..pyfront import dotted, call_name, kwarg, params, src, walk_no_nested, const
 from .. import formats as F
 
@@ -716,7 +717,7 @@ def _r7_reader_buffers(ctx):
 
 
 # ---------------------------------------------------------------------------------------------
-def _r8_text_readers(ctx):
+def _r8_text_readers(ctx, rule="C02-R8", cursor_only=False):
     """read() / seek() / tell() of the text formats evaluated (sa/tensym.py, sa/ttext.py) on a model file of seven frames that the format's own
     writer produced from symbolic frames (sa/writers.py).  Decided by value for sequences of calls on one file object: read(n, stride=s) at cursor
     P returns exactly the frames P, P+s, ... (n of them, or up to the end) and leaves the cursor at P + n*s (the end for n None), so the next read
@@ -731,6 +732,7 @@ def _r8_text_readers(ctx):
         ("n_frames counts frames returned", [("read", dict(n_frames=3, stride=3)), ("read", dict())]),
         ("single strided frames (iterload chunk=1)", [("read", dict(n_frames=1, stride=2)), ("read", dict(n_frames=1, stride=2)), ("read", dict(n_frames=1, stride=3)), ("read", dict())]),
         ("atom selection of strided frames", [("read", dict(stride=2, atom_indices=[2, 0]))]),
+        ("the remainder read twice with a selection (the loop that reads until nothing comes)", [("read", dict(n_frames=5, atom_indices=[2, 0])), ("read", dict(atom_indices=[2, 0])), ("read", dict(atom_indices=[2, 0]))]),
         ("seek, then read", [("seek", 5), ("read", dict()), ("seek", 1), ("read", dict(n_frames=2, stride=2)), ("tell", None)]),
         ("seek to the end (iterload skip = number of frames), then read", [("seek", 7), ("tell", None), ("read", dict())]),
     ]
@@ -742,9 +744,42 @@ def _r8_text_readers(ctx):
         rel, cls = F.rel_cls(key)
         rfn = F.method(ctx, key, "read")
         q = cls + ".read"
+        if cursor_only:
+            # a file whose last frame is cut short (the writer is still at work, or was killed): reading to the end returns the complete frames and
+            # the position is their number - an incomplete frame is not counted
+            desc_t = "the cursor after reading a file whose last frame is cut short: read(), tell()"
+            try:
+                root = W.new_root()
+                world = W.World(3, cell=True, ortho=True, time=True, n_atoms=W.N_ATOMS)
+                pieces = W.written(ctx, key, world, [(0, 3)], root)
+                fh = W.text_file(pieces)
+                del fh._lines[-2:]
+                fields = {"mdcrd": dict(_n_atoms=W.N_ATOMS, _has_box=None), "gro": dict(n_atoms=W.N_ATOMS)}.get(key, {})
+                me = W.reader_object(ctx, key, fh, **fields)
+                if key == "mdcrd":
+                    fh.readline()
+                try:
+                    got = W.read_call(ctx, key, me, "read", root)
+                    res = list(got) if isinstance(got, tuple) else [got]
+                    n_ret = res[0].shape[0] if isinstance(res[0], Ten) and res[0].ndim == 3 else None
+                    outcome = "returns %s frames" % n_ret
+                except Raised as e:
+                    n_ret, outcome = None, "raises %s" % (e.exc or e)
+                try:
+                    t_ = ctx_pyval(W.read_call(ctx, key, me, "tell", root))
+                except Raised as e:
+                    t_ = None if "NotImplementedError" in (e.exc or "") else "raises %s" % (e.exc or e)
+                if n_ret is None:
+                    ctx.note(rule, rfn, rel, q, desc_t, "read() of the truncated file %s: nothing to compare the position with" % outcome)
+                elif t_ is None:
+                    ctx.note(rule, rfn, rel, q, desc_t, "tell() is not implemented by this format")
+                else:
+                    ctx.decide(t_ == n_ret, rule, rfn, rel, q, desc_t, "", "read() %s of a file with 2 complete frames and a third one cut short, tell() is then %s: the incomplete frame is counted" % (outcome, t_))
+            except PUnsupported as e:
+                ctx.undecided(rule, rfn, rel, q, desc_t, "not evaluable: %s" % e)
         # mdcrd holds ten numbers per line: also a frame that fills its last line exactly (10 atoms = 30 numbers)
         for na, cell, (title, seq) in [(W.N_ATOMS, True, ts_) for ts_ in seqs] + ([(10, True, seqs[0]), (10, False, seqs[0]), (10, False, seqs[3]), (W.N_ATOMS, False, seqs[0])] if key == "mdcrd" else []):
-            desc = "%s%s: %s" % (title, "" if (na == W.N_ATOMS and cell) else " (%d atoms%s)" % (na, "" if cell else ", no cell"), ", ".join("%s(%s)" % (m_, ", ".join("%s=%s" % kv for kv in a_.items()) if isinstance(a_, dict) else ("" if a_ is None else a_)) for m_, a_ in seq))
+            desc = ("the cursor after every call - " if cursor_only else "") + "%s%s: %s" % (title, "" if (na == W.N_ATOMS and cell) else " (%d atoms%s)" % (na, "" if cell else ", no cell"), ", ".join("%s(%s)" % (m_, ", ".join("%s=%s" % kv for kv in a_.items()) if isinstance(a_, dict) else ("" if a_ is None else a_)) for m_, a_ in seq))
             try:
                 root = W.new_root()
                 world = W.World(NF, cell=cell, ortho=True, time=True, n_atoms=na)
@@ -800,14 +835,27 @@ def _r8_text_readers(ctx):
                         if not all(_same(a1, b1) for a1, b1 in zip(res[1].data, [world.t.data[f_] for f_ in want])) or res[1].shape[0] != len(want):
                             why.append("the times returned are not those of frames %s" % want)
                     P = min(NF, P + (n_ * s_ if n_ is not None else NF))
+                    if cursor_only:
+                        # the cursor after every read: tell() is the number of frames consumed so far
+                        try:
+                            t_ = W.read_call(ctx, key, me, "tell", root, models=models)
+                            if ctx_pyval(t_) != P:
+                                why.append("tell() is %s after %s has consumed the frames up to %d" % (t_, "read(%s)" % ", ".join("%s=%s" % kv for kv in a_.items()), P))
+                        except Raised as e:
+                            if "NotImplementedError" not in (e.exc or ""):
+                                raise
+                if cursor_only:
+                    why = None if why is None else [w_ for w_ in why if "tell()" in w_]
                 if why is None:
-                    ctx.note("C02-R8", rfn, rel, q, desc, "seek() is not implemented by this format (NotImplementedError)")
+                    ctx.note(rule, rfn, rel, q, desc, "seek() is not implemented by this format (NotImplementedError)")
                     continue
-                ctx.decide(not why, "C02-R8", rfn, rel, q, desc, "", "; ".join(why[:2]))
+                ctx.decide(not why, rule, rfn, rel, q, desc, "", "; ".join(why[:2]))
             except Raised as e:
-                ctx.violated("C02-R8", rfn, rel, q, desc, "refused: %s" % (e.exc or e))
+                ctx.violated(rule, rfn, rel, q, desc, "refused: %s" % (e.exc or e))
+            except ShapeError as e:
+                ctx.violated(rule, rfn, rel, q, desc, "raises IndexError / ValueError: %s" % e)
             except PUnsupported as e:
-                ctx.undecided("C02-R8", rfn, rel, q, desc, "not evaluable: %s" % e)
+                ctx.undecided(rule, rfn, rel, q, desc, "not evaluable: %s" % e)
 
 
 def _r13_arc_reader(ctx):
@@ -824,7 +872,7 @@ def _r13_arc_reader(ctx):
     rfn = F.method(ctx, "arc", "read")
     q = cls + ".read"
     names = ["N", "CL", "H"]
-    bonds = [[2], [1, 3], []]
+    bonds = [[], [3], [2]]      # the first atom has no bonded partner: its record has six fields, as many as a cell line
     seqs = [
         ("all frames", [("read", dict())]),
         ("strided reads continue where the last one stopped", [("read", dict(n_frames=2, stride=2)), ("read", dict(n_frames=1)), ("read", dict(stride=3))]),
@@ -921,11 +969,13 @@ def _r13_arc_reader(ctx):
                     P = min(NF, P + (n_ * s_ if n_ is not None else NF))
                 if tops:
                     t0 = tops[0]
-                    if [a_.name for a_ in t0._atoms] != names or sorted(t0._bonds) != [(0, 1), (1, 2)] or len(tops) != 1:
-                        why.append("the topology built has atoms %s and bonds %s (%d built); the file has %s with bonds 1-2, 2-3" % ([a_.name for a_ in t0._atoms], sorted(t0._bonds), len(tops), names))
+                    if [a_.name for a_ in t0._atoms] != names or sorted(t0._bonds) != [(1, 2)] or len(tops) != 1:
+                        why.append("the topology built has atoms %s and bonds %s (%d built); the file has %s with the bond 2-3" % ([a_.name for a_ in t0._atoms], sorted(t0._bonds), len(tops), names))
                 ctx.decide(not why, "C02-R8", rfn, rel, q, desc, "", "; ".join(why[:2]))
             except Raised as e:
                 ctx.violated("C02-R8", rfn, rel, q, desc, "raises %s" % (e.exc or e))
+            except ShapeError as e:
+                ctx.violated("C02-R8", rfn, rel, q, desc, "raises IndexError / ValueError: %s" % e)
             except PUnsupported as e:
                 ctx.undecided("C02-R8", rfn, rel, q, desc, "not evaluable: %s" % e)
 
@@ -1108,6 +1158,7 @@ def _r11_array_store_readers(ctx):
         ("n_frames counts frames returned", [("read", dict(n_frames=3, stride=3)), ("read", dict())]),
         ("single strided frames (iterload chunk=1)", [("read", dict(n_frames=1, stride=2)), ("read", dict(n_frames=1, stride=2)), ("read", dict(n_frames=1, stride=3)), ("read", dict())]),
         ("atom selection of strided frames", [("read", dict(stride=2, atom_indices=[2, 0]))]),
+        ("the remainder read twice with a selection (the loop that reads until nothing comes)", [("read", dict(n_frames=5, atom_indices=[2, 0])), ("read", dict(atom_indices=[2, 0])), ("read", dict(atom_indices=[2, 0]))]),
         ("seek, then read", [("seek", 5), ("read", dict()), ("seek", 1), ("read", dict(n_frames=2, stride=2)), ("tell", None)]),
         ("seek to the end (iterload skip = number of frames), then read", [("seek", 7), ("tell", None), ("read", dict())]),
     ]
@@ -1185,6 +1236,8 @@ def _r11_array_store_readers(ctx):
                 ctx.decide(not why, "C02-R8", rfn, rel, q, desc, "", "; ".join(why[:2]))
             except Raised as e:
                 ctx.violated("C02-R8", rfn, rel, q, desc, "refused: %s" % (e.exc or e))
+            except ShapeError as e:
+                ctx.violated("C02-R8", rfn, rel, q, desc, "raises IndexError / ValueError: %s" % e)
             except PUnsupported as e:
                 ctx.undecided("C02-R8", rfn, rel, q, desc, "not evaluable: %s" % e)
 
@@ -1311,6 +1364,7 @@ def _r12_dcd_reader(ctx):
         ("n_frames counts frames returned", [("read", dict(n_frames=3, stride=3)), ("read", dict())]),
         ("single strided frames (iterload chunk=1)", [("read", dict(n_frames=1, stride=2)), ("read", dict(n_frames=1, stride=2)), ("read", dict(n_frames=1, stride=3)), ("read", dict())]),
         ("atom selection of strided frames", [("read", dict(stride=2, atom_indices=[2, 0]))]),
+        ("the remainder read twice with a selection (the loop that reads until nothing comes)", [("read", dict(n_frames=5, atom_indices=[2, 0])), ("read", dict(atom_indices=[2, 0])), ("read", dict(atom_indices=[2, 0]))]),
         ("seek, then read", [("seek", 5), ("read", dict()), ("seek", 1), ("read", dict(n_frames=2, stride=2)), ("tell", None)]),
         ("seek to the end (iterload skip = number of frames), then read", [("seek", 7), ("tell", None), ("read", dict())]),
     ]
